@@ -492,7 +492,8 @@ Definition cleanup (iso sing multi conn relabel : bool) (s : hg) : res :=
   bind (if multi then ok s else merge_duplicate_edges RnFirst MrFirst None s)
   (fun s1 => bind (if sing then ok s1 else remove_edges_from (singletons s1) s1)
   (fun s2 => bind (if iso then ok s2 else remove_nodes_from (isolates s2) false true s2)
-  (fun s3 => bind (if conn then largest_connected_inplace s3 else ok s3)
+  (fun s3 => bind (if conn && negb (match h_node s3 with [] => true | _ => false end)
+                   then largest_connected_inplace s3 else ok s3)
   (fun s4 => if relabel then relabel_inplace "label" s4 else ok s4)))).
 
 (* ---------- the op alphabet and the step function ---------- *)
